@@ -1,4 +1,4 @@
-"""C06/C07 translator: const.STATE_VARIABLE_TYPE_MAPPING, the entity table passed to `escape` in
+"""C06/C07 translator (the type table itself is C08's, Gen/C08Types.lean): the entity table passed to `escape` in
 client.UpnpAction._format_request_args, and the library exception hierarchy (exceptions.py)
 -> lean/Upnp/Gen/C06Types.lean."""
 from __future__ import annotations
@@ -9,10 +9,6 @@ from pathlib import Path
 import extract
 from extract import Untranslatable, lean_str
 
-PYTYPES = {"int": ".int", "float": ".float", "str": ".str", "bool": ".bool", "date": ".date",
-           "datetime": ".datetime", "time": ".time"}
-
-
 def chars(s: str) -> str:
     """a Lean `List Char` literal (kernel-reducible, unlike String functions)"""
     return lean_str(s) + ".toList"
@@ -20,115 +16,6 @@ def chars(s: str) -> str:
 
 def _is_name(node, name=None):
     return isinstance(node, ast.Name) and (name is None or node.id == name)
-
-
-def _lambda1(node):
-    if not isinstance(node, ast.Lambda):
-        return None
-    a = node.args
-    if a.posonlyargs or a.kwonlyargs or a.vararg or a.kwarg or a.defaults or len(a.args) != 1:
-        return None
-    return a.args[0].arg, node.body
-
-
-def in_shape(node) -> str:
-    if _is_name(node, "int"):
-        return ".int"
-    if _is_name(node, "float"):
-        return ".float"
-    if _is_name(node, "str"):
-        return ".str"
-    if _is_name(node, "parse_date_time"):
-        return ".dateTime"
-    lam = _lambda1(node)
-    if lam:
-        arg, body = lam
-        # s.lower() in ["1", "true", "yes"]
-        if (isinstance(body, ast.Compare) and len(body.ops) == 1 and isinstance(body.ops[0], ast.In)
-                and isinstance(body.left, ast.Call) and not body.left.args and not body.left.keywords
-                and isinstance(body.left.func, ast.Attribute) and body.left.func.attr == "lower"
-                and _is_name(body.left.func.value, arg)
-                and isinstance(body.comparators[0], (ast.List, ast.Tuple, ast.Set))
-                and all(isinstance(e, ast.Constant) and isinstance(e.value, str) for e in body.comparators[0].elts)):
-            return "(.boolIn [" + ", ".join(chars(e.value) for e in body.comparators[0].elts) + "])"
-    raise Untranslatable("in-coercer: " + ast.dump(node)[:200])
-
-
-def out_shape(node, pytype: str = "") -> str:
-    if _is_name(node, "str"):
-        return ".str"
-    lam = _lambda1(node)
-    if lam:
-        arg, body = lam
-        # str(int(x))
-        if (isinstance(body, ast.Call) and _is_name(body.func, "str") and len(body.args) == 1 and not body.keywords
-                and isinstance(body.args[0], ast.Call) and _is_name(body.args[0].func, "int")
-                and len(body.args[0].args) == 1 and not body.args[0].keywords and _is_name(body.args[0].args[0], arg)):
-            return ".strInt"
-        # "1" if b else "0"
-        if (isinstance(body, ast.IfExp) and _is_name(body.test, arg)
-                and all(isinstance(x, ast.Constant) and isinstance(x.value, str) for x in (body.body, body.orelse))):
-            return f"(.boolOut {chars(body.body.value)} {chars(body.orelse.value)})"
-        # x.isoformat(...)
-        if (isinstance(body, ast.Call) and isinstance(body.func, ast.Attribute) and body.func.attr == "isoformat"
-                and _is_name(body.func.value, arg)
-                and all(isinstance(x, ast.Constant) for x in body.args)
-                and all(k.arg in ("sep", "timespec") and isinstance(k.value, ast.Constant) for k in body.keywords)):
-            args = [x.value for x in body.args]
-            kws = {k.arg: k.value.value for k in body.keywords}
-            if not kws:
-                if args == []:
-                    return ".iso0"
-                if args == ["T", "seconds"]:
-                    return ".isoTSec"
-                if args == ["seconds"]:
-                    return ".isoSec"
-            # keyword spellings of the same calls (second precision, separator T)
-            if kws.get("timespec") == "seconds" and kws.get("sep", "T") == "T":
-                if args == [] and "sep" not in kws:
-                    if pytype == "time":
-                        return ".isoSec"
-                    if pytype == "datetime":
-                        return ".isoTSec"
-                if (args == ["T"] and "sep" not in kws) or (args == [] and "sep" in kws):
-                    return ".isoTSec"
-    raise Untranslatable("out-coercer: " + ast.dump(node)[:200])
-
-
-def type_table(repo: Path):
-    mod = extract.parse(repo, "async_upnp_client/const.py")
-    for node in mod.body:
-        tgt = None
-        if isinstance(node, ast.AnnAssign) and _is_name(node.target, "STATE_VARIABLE_TYPE_MAPPING"):
-            tgt = node.value
-        if isinstance(node, ast.Assign) and any(_is_name(t, "STATE_VARIABLE_TYPE_MAPPING") for t in node.targets):
-            tgt = node.value
-        if tgt is None:
-            continue
-        if not isinstance(tgt, ast.Dict):
-            raise Untranslatable("STATE_VARIABLE_TYPE_MAPPING is not a dict display")
-        rows = []
-        for k, v in zip(tgt.keys, tgt.values):
-            if not (isinstance(k, ast.Constant) and isinstance(k.value, str) and isinstance(v, ast.Dict)):
-                raise Untranslatable("row shape")
-            fields = {}
-            for fk, fv in zip(v.keys, v.values):
-                if not (isinstance(fk, ast.Constant) and isinstance(fk.value, str)):
-                    raise Untranslatable("row key")
-                fields[fk.value] = fv
-            if set(fields) - {"type", "in", "out", "validator"} or not {"type", "in", "out"} <= set(fields):
-                raise Untranslatable(f"row {k.value}: keys {sorted(fields)}")
-            ty = fields["type"]
-            if not (_is_name(ty) and ty.id in PYTYPES):
-                raise Untranslatable(f"row {k.value}: type")
-            need_tz = "false"
-            if "validator" in fields:
-                if not _is_name(fields["validator"], "require_tzinfo"):
-                    raise Untranslatable(f"row {k.value}: validator")
-                need_tz = "true"
-            rows.append(f"  ⟨{chars(k.value)}, {PYTYPES[ty.id]}, {need_tz}, {in_shape(fields['in'])}, {out_shape(fields['out'], ty.id)}⟩")
-        return rows
-    raise Untranslatable("STATE_VARIABLE_TYPE_MAPPING not found")
 
 
 def escape_extra(repo: Path):
@@ -243,16 +130,14 @@ def exc_ancestors(repo: Path):
 
 @extract.generator("C06Types")
 def gen(repo: Path) -> str:
-    rows = type_table(repo)
     ents = escape_extra(repo)
     excs = exc_ancestors(repo)
     nsq = ns_attr_quoted(repo)
     return (
-        extract.HEADER.format(src="async_upnp_client/const.py, client.py, exceptions.py")
-        + "import Upnp.Model.C06Val\nnamespace Upnp.Gen.C06Types\nopen Upnp.C06\n\n"
-        + "/-- const.STATE_VARIABLE_TYPE_MAPPING -/\ndef table : List TypeRow := [\n" + ",\n".join(rows) + "]\n\n"
+        extract.HEADER.format(src="async_upnp_client/client.py, exceptions.py")
+        + "namespace Upnp.Gen.C06Types\n\n"
         + "/-- entity table passed to `escape` in UpnpAction._format_request_args -/\n"
-        + "def escapeExtra : List (Char × Str) := [" + ", ".join(ents) + "]\n\n"
+        + "def escapeExtra : List (Char × List Char) := [" + ", ".join(ents) + "]\n\n"
         + "/-- `create_request` writes the service type into `xmlns:u=` through `quoteattr` -/\n"
         + f"def nsAttrQuoted : Bool := {nsq}\n\n"
         + "/-- library exception classes with their library ancestors (reflexive, sorted) -/\n"
